@@ -645,6 +645,20 @@ func (c *cidRun) mgrWitnesses() {
 		s.do(&mOp{kind: "close"})
 		s.emit()
 	}
+	// W11 (observation, not a finding of C16): IDs handed to path probing are not counted by Add's
+	// limit check, so the manager can hold more IDs than it advertised - generous, never stricter
+	s = c.newMgrSession(init, "W11")
+	s.do(add(1, 0)); s.do(add(2, 0)); s.do(add(3, 0))
+	for p := int64(1); p <= 3; p++ {
+		s.do(&mOp{kind: "pget", pid: p})
+	}
+	s.do(add(4, 0)); s.do(add(5, 0))
+	last6 := s.do(add(6, 0))
+	if st := s.v.State(); last6.cls == quic.VerifOK && 1+len(st.Queue)+len(st.Probing) > maxActive {
+		fmt.Fprintf(c.w, "INFO\tobservation: with 3 probing paths the manager holds %d connection IDs of the peer while advertising active_connection_id_limit %d (Add counts len(queue) only; RFC 9000 5.1.1 counts all active IDs)\n",
+			1+len(st.Queue)+len(st.Probing), maxActive)
+	}
+	s.emit()
 	// W4: exactly the limit is accepted, one more is refused
 	s = c.newMgrSession(init, "W4")
 	for q := uint64(1); q <= maxActive; q++ {
